@@ -42,7 +42,7 @@ ASSUMPTIONS = [
 
 def floors(tier):
     return {"rel=B": 1500, "rel=A": 1500, "bf=0": 1000, "bf=1": 1000, "scaled": 1500,
-            "sweep": 5000, "count>0": 300}
+            "sweep": 5000, "count>0": 300, "kwargs-permuted": 300}
 
 
 def has_hp(defn):
@@ -157,6 +157,17 @@ def check(case) -> core.Out:
         out.classes = ["skipped:empty-subset"]
         return out
     kw = {n: reported[n] for n in names if n in keep}
+    if case.get("kworder") is not None and len(kw) > 1:
+        # keyword arguments in a permuted order (the payload is defined by the
+        # definition, not by the order in which the caller names the attributes)
+        ks = list(kw)
+        r = case["kworder"]
+        for i in range(len(ks) - 1, 0, -1):
+            r = (r * 1103515245 + 12345) % (1 << 31)
+            j = r % (i + 1)
+            ks[i], ks[j] = ks[j], ks[i]
+        kw = {k_: kw[k_] for k_ in ks}
+        classes.append("kwargs-permuted")
     want_nodes = G.restrict_full(t.defn, nodes, keep, bf, count_fn_for(t))
     want = G.encode(want_nodes)
     st_ = C.nodes_stats(want_nodes)
@@ -299,7 +310,8 @@ def run_shard(spec, ctx, acc):
                     leaf[4] = 0
             for bf in (1, 0):
                 if not has_hp(t.defn):
-                    sb = inst.map(lambda nodes, bf=bf: dict(base, bf=bf, nodes=nodes, subset=None))
+                    sb = st.tuples(inst, st.one_of(st.none(), st.integers(0, 10 ** 6))).map(
+                        lambda nk, bf=bf: dict(base, bf=bf, nodes=nk[0], subset=None, kworder=nk[1]))
                     from vp.props import c13
 
                     core.hyp_search(acc, sb, check, seed=core.derive(ctx["seed"], PROP, "B", t.label, bf),
